@@ -10,6 +10,12 @@
 //
 // usage: pp_harness <dir> ...      each <dir> holds a file t.c; one output line per directory:
 //   ok <hex spelling>@<name>,<name>,... ...   |   err   |   hang   |   crash <status>
+// usage: pp_harness -subst <dir> ...   each <dir> holds t.c (definitions: #define / #undef lines) and u.c (one invocation
+//   `name ( arguments ) ...`): the definitions are processed by preprocess2(), then find_macro(), read_macro_args() and the
+//   static function subst() are called DIRECTLY on the invocation and the token list subst() returns is printed BEFORE any
+//   rescanning — the function `C09_subst_spec` is about (`drv_c09 subst` prints the model's).  One line per directory:
+//   ok <k><at_bol><has_space>.<hex spelling> ...   (k = i n s p o: identifier, pp-number, string, punctuator, character constant)
+//   |   na  (not a function-like macro followed by `(`)   |   err   |   hang   |   crash <status>
 // Every directory is processed in a forked child (error_tok() ends in exit(1); state is never shared between cases).
 // Run with ASAN_OPTIONS=exitcode=99 UBSAN_OPTIONS=exitcode=99 so that a sanitizer report is not mistaken for a diagnostic.
 //
@@ -53,8 +59,52 @@ static void run_one(void) {
   _exit(0);
 }
 
+static char kind_char(Token *t) {
+  switch (t->kind) {
+  case TK_IDENT: return 'i';
+  case TK_PP_NUM: return 'n';
+  case TK_STR: return 's';
+  case TK_PUNCT: return 'p';
+  default: return 'o';
+  }
+}
+
+static void run_subst(void) {
+  init_macros();
+  Token *tok = tokenize_file("t.c");
+  if (!tok)
+    _exit(4);
+  preprocess2(tok);                          // the definitions
+  Token *inv = tokenize_file("u.c");
+  if (!inv)
+    _exit(4);
+  Macro *m = find_macro(inv);
+  if (!m || m->handler || m->is_objlike || !equal(inv->next, "(")) {
+    puts("na");
+    fflush(stdout);
+    _exit(0);
+  }
+  Token *t = inv;
+  MacroArg *args = read_macro_args(&t, t, m->params, m->va_args_name);
+  Token *body = subst(m->body, args, false);
+  char *buf; size_t len;
+  FILE *out = open_memstream(&buf, &len);
+  fputs("ok", out);
+  for (Token *b = body; b && b->kind != TK_EOF; b = b->next) {
+    fprintf(out, " %c%d%d.", kind_char(b), b->at_bol ? 1 : 0, b->has_space ? 1 : 0);
+    for (int i = 0; i < b->len; i++)
+      fprintf(out, "%02x", (unsigned char)b->loc[i]);
+  }
+  fputc('\n', out);
+  fclose(out);
+  fwrite(buf, 1, len, stdout);
+  fflush(stdout);
+  _exit(0);
+}
+
 int main(int argc, char **argv) {
-  for (int i = 1; i < argc; i++) {
+  bool subst_mode = argc > 1 && !strcmp(argv[1], "-subst");
+  for (int i = subst_mode ? 2 : 1; i < argc; i++) {
     fflush(stdout);
     pid_t pid = fork();
     if (pid < 0) {
@@ -67,6 +117,8 @@ int main(int argc, char **argv) {
       fclose(stderr);
       stderr = fopen("/dev/null", "w");
       alarm(5);
+      if (subst_mode)
+        run_subst();
       run_one();
     }
     int status = 0;
